@@ -43,6 +43,22 @@ theorem C19_noservice (update : List α) :
     stubUpdate (none : Option (List α → Option (List α) × Option ε)) update =
       ([], some .noService) := rfl
 
+/-- … also while its `Start()` is in progress but the runtime client does not exist yet
+    (dialing, multiplexing): the answer depends on nothing else — in particular not on the stub
+    lock `Start()` holds, which `UpdateContainers` does not take. (In the transition system this
+    is the same `callUnstarted` step, enabled in every state by `C19_noservice_never_blocks`.) -/
+theorem C19_noservice_starting (ph : StubPhase) (hph : ph = .fresh ∨ ph = .connecting)
+    (client : List α → Option (List α) × Option ε) (update : List α) :
+    stubUpdate (clientOf ph client) update = ([], some .noService) := by
+  rcases hph with rfl | rfl <;> rfl
+
+/-- Once the client exists — from the registering phase on, which is when the plugin's
+    `Configure` handler runs — an update is passed through exactly like on a started stub. -/
+theorem C19_passthrough_registering (ph : StubPhase) (hph : ph = .registering ∨ ph = .started)
+    (fn : List α → FnResult α ε) (update : List α) :
+    stubUpdate (clientOf ph (connected fn)) update = expected (fn update) := by
+  rcases hph with rfl | rfl <;> exact C19_passthrough_fn fn update
+
 variable [DecidableEq α] [DecidableEq ε]
 
 /-- … in every state (whoever holds the adaptation mutex: it does not block), without touching
